@@ -56,4 +56,10 @@ def obligations(tier):
     obs.append(Ob('O8.2-ago-later-N', 'sx', 'harness.apidt:h_ago_later', slices=[{'unit': u} for u in ('D', 'W')], timeout=t,
                   descr='get_date_result: R -/+ N days or 7N days for symbolic N', bounds='N 1..5000, every reference 1950..2090, both directions',
                   encodes=[B + 'utilities:AgoLaterUtil.get_date_result']))
+    ZD = 'recognizers_date_time.date_time.chinese.date_parser:ChineseDateParser.'
+    obs.append(Ob('O8.6-chinese-special-day', 'sx', 'harness.dateparse_zh:h_zh_special', slices=[{'word': w} for w in ('今天', '明天', '后天', '大后天', '昨天', '前天', '大前天', '明日', '昨日')], timeout=t,
+                  descr='Chinese special days (今天 明天 后天 大后天 昨天 前天 大前天 ...) through the real ChineseDateParser.parse_implicit_date and get_swift_day: value = TIMEX = reference date + k days for every reference',
+                  bounds='reference every minute 1950..2090; one slice per word (shift from an independent table)',
+                  encodes=[ZD + 'parse_implicit_date', 'recognizers_date_time.date_time.chinese.date_parser_config:ChineseDateParserConfiguration.get_swift_day'],
+                  stubs=['FakeRegex/FakeMatch: the special-day pattern matches the word as the whole text']))
     return obs
